@@ -32,17 +32,17 @@ def build_htopo(d):
 def run(tier, seed):
     t0 = time.time()
     d = vc.fresh_dir(PID)
-    lvl = 0 if tier == "quick" else 1
+    lvl = 1   # the deeper level costs seconds: both tiers run it (thorough = quick for this check)
     reps = [vc.run_seqx(build(d), [lvl], timeout=3000)]
     tot, viol = vc.seqx_collect(PID, "topo", reps)
     # concurrent use: every interleaving of the calls of two LPs on two scheduler threads
     ht = build_htopo(d)
-    p = "4" if tier == "quick" else "8"
+    p = "8"
     rreps, rm, rviol = vc.rsched_scenarios(PID, "h_topo", ht, [(f"conc_g{g}", ["-p", p, "-j", "4", "--deadline", "600", f"g={g}"])
                                                              for g in (1, 2, 3)], d, workers=3)
     viol += rviol
     cover = reps[0].get("shuffle_index_tuples_covered", 0)
-    if not viol and cover < (600 if tier == "quick" else 715):
+    if not viol and cover < 715:
         raise vc.EngineError(f"vacuous: only {cover} of 720 shuffle index tuples drawn by the generator states used")
     from checks import hrun_common as hc
     lrep, ltot, lviol = hc.libstate_part(PID, d)
